@@ -660,9 +660,14 @@ def predict(traces, workdir):
     scf = os.path.join(workdir, "predict-%d.json" % id(traces))
     with open(scf, "w") as out:
         json.dump([{"sid": i + 1, "cfg": t["cfg"]} for i, t in enumerate(traces)], out)
-    rc, out = tlc.run("OrchestraPredict.tla", "OrchestraPredict.cfg", env={"TRACE_FILE": scf},
-                      workers=1, scratch=workdir, heap="3g")
-    os.remove(scf)
+    try:
+        rc, out = tlc.run("OrchestraPredict.tla", "OrchestraPredict.cfg", env={"TRACE_FILE": scf},
+                          workers=1, scratch=workdir, heap="3g", timeout=240)
+    except tlc.TlcFailure:
+        # a scenario with a large tie group: its interleavings are too many to enumerate
+        return [], 0, 0, [-1] * len(traces)
+    finally:
+        os.remove(scf)
     bad = tlc.violated(out)
     if bad:
         raise tlc.TlcFailure("the specification violates %s on a scripted scenario:\n%s" % (bad, out[-4000:]))
@@ -686,6 +691,18 @@ def predict(traces, workdir):
             misses.append((tr, "outcome-not-allowed", len(outs)))
     gen, dist = tlc.stats(out)
     return misses, gen, dist, sizes
+
+
+def predictable(trace):
+    """small enough for an exhaustive exploration of every tie: at most 8 nodes and
+    at most 3 completions in any one instant"""
+    if trace["cfg"]["n"] > 8 or (trace.get("harness") or {}).get("stall"):
+        return False
+    per = {}
+    for e in trace["ev"]:
+        if e["k"] in ("end", "raise", "cancel-done", "shut-done"):
+            per[(e["k"][:4], e["t"])] = per.get((e["k"][:4], e["t"]), 0) + 1
+    return max(per.values(), default=0) <= 3
 
 
 def predict_all(traces, workdir):
